@@ -179,7 +179,22 @@ def run(ctx, res):
         pc = closure_named(F, f, lambda cl: any(e for _, _, e in cl.stmts() if e["rv"]["k"] == "bin" and e["rv"]["op"] == "Ne"))
         orr = any(s["rv"]["k"] == "bin" and s["rv"]["op"] == "BitOr" for _, _, s in f.stmts())
         lastmut = any(callee(t).endswith("::last_mut") for _, t in f.calls())
-        if pc is not None and orr and lastmut:
+        # on every path of the loop body the previous terminal's flag is OR-ed with `priority changed` itself: not with a value
+        # that some setting can force to false (the group cut applies with and without most-specific matching)
+        ored = set()
+        for p in Sim(f, F).run(entry=hdr):
+            if p.end != "backedge":
+                continue
+            for e in p.events:
+                if e[0] in ("store", "set") and isinstance(e[2], tuple) and e[2][0] == "bin" and e[2][1] == "BitOr":
+                    x = e[2][3]
+                    ored.add("changed" if (is_call(x, "is_some_and") or is_call(x, "::ne") or (isinstance(x, tuple) and x[0] == "bin" and x[1] == "Ne")
+                                            or mir.contains(x, lambda y: is_call(y, "is_some_and"))) else fmt(x)[:40])
+        if pc is not None and orr and lastmut and ored and ored != {"changed"}:
+            res.violation(rid2, "group-end-flag", "the end of a priority group is flagged with %s on some path of the loop (expected: "
+                          "priority changed, unconditionally): with that setting a lower-priority terminal is tried although a "
+                          "higher-priority one matched" % sorted(ored - {"changed"}), f.loc())
+        elif pc is not None and orr and lastmut:
             res.ok(rid2, "group-end-flag", f.loc(), "last_mut().1 |= (terminal.prio != last_prio)")
         else:
             res.violation(rid2, "group-end-flag", "the end of a priority group is not flagged on the previous terminal (Ne closure: %s, "
